@@ -43,7 +43,9 @@ func c10Source(i int) string {
 			s += string(w[j])
 		}
 	}
-	return s + " maybe 'z'"
+	// the continuation after the loop must be able to FAIL (so that the search backtracks into the
+	// nullable loop) and to succeed: a literal, on a symbolic text, does both
+	return s + " 'z'"
 }
 
 func VerifC10(shape int, T int) {
